@@ -37,6 +37,42 @@ func jsonToElem(v any) rlp.Element {
 	return rlp.Data{}
 }
 
+// aliasedElem builds the tree with all Data elements laid out consecutively in one shared buffer.
+func aliasedElem(v any) rlp.Element {
+	var total int
+	var count func(v any)
+	count = func(v any) {
+		switch t := v.(type) {
+		case string:
+			total += len(t) / 2
+		case []any:
+			for _, c := range t {
+				count(c)
+			}
+		}
+	}
+	count(v)
+	buf := make([]byte, 0, total+64)
+	var build func(v any) rlp.Element
+	build = func(v any) rlp.Element {
+		switch t := v.(type) {
+		case string:
+			b := unhx(t)
+			start := len(buf)
+			buf = append(buf, b...)
+			return rlp.Data(buf[start:len(buf)]) // cap extends over everything that follows
+		case []any:
+			l := rlp.List{}
+			for _, c := range t {
+				l = append(l, build(c))
+			}
+			return l
+		}
+		return rlp.Data{}
+	}
+	return build(v)
+}
+
 func implRlpDecode(b []byte) any {
 	el, pos, err := rlp.Decode(b)
 	if err != nil {
@@ -138,6 +174,15 @@ func init() {
 				c.Add(map[string]any{"op": "rlp.roundtrip", "item": t, "rest": hx(rest)}, "tree")
 				encs = append(encs, jsonToElem(t).Encode())
 			}
+			// 1b. lists of short strings incl. single bytes < 0x80 in first position (aliasing-sensitive shapes)
+			for i := 0; i < 300; i++ {
+				k := 1 + r.Intn(5)
+				l := []any{hx([]byte{byte(r.Intn(0x80))})}
+				for q := 0; q < k; q++ {
+					l = append(l, hx(r.Bytes(r.Intn(4))))
+				}
+				c.Add(map[string]any{"op": "rlp.roundtrip", "item": l, "rest": ""}, "tree.smalllist")
+			}
 			// 2. exhaustive short byte strings
 			maxLen := 2
 			if c.Thorough() {
@@ -237,7 +282,18 @@ func init() {
 				el := jsonToElem(req["item"])
 				enc := el.Encode()
 				full := append(append([]byte{}, enc...), unhx(str(req, "rest"))...)
-				return map[string]any{"enc": hx(enc), "dec": implRlpDecode(full)}
+				// the same tree again, with every byte string a sub-slice of ONE backing buffer (cap > len), as a
+				// caller slicing fields out of a message would build it: encoding must not depend on, or write to, it
+				al := aliasedElem(req["item"])
+				enc2 := al.Encode()
+				out := map[string]any{"enc": hx(enc), "dec": implRlpDecode(full)}
+				if hx(enc2) != hx(enc) {
+					out["aliasedEnc"] = hx(enc2)
+				}
+				if !same(elemToJSON(al), req["item"]) {
+					out["mutated"] = true
+				}
+				return out
 			}
 			return "bad-op"
 		},
@@ -254,6 +310,9 @@ func init() {
 				}
 				if !same(m["dec"], orc["modelDec"]) {
 					fs = append(fs, Finding{Kind: "mismatch", Region: "rlp.decode", Detail: "Decode(enc++rest) differs from Model.Decode"})
+				}
+				if m["aliasedEnc"] != nil || m["mutated"] == true {
+					fs = append(fs, Finding{Kind: "violation", Region: "rlp.encode.aliasing", Detail: "Encode() of a tree whose strings share a backing array differs from the canonical encoding or modified the caller's tree"})
 				}
 				if !same(m["dec"], orc["specDec"]) {
 					fs = append(fs, Finding{Kind: "violation", Region: "rlp.roundtrip", Detail: "Decode(Encode(t)++rest) is not (t, len)"})
